@@ -75,6 +75,25 @@ def fxInit (l : List (Nat × Int)) : Fix :=
   let acc := l.foldl fxInitStep ([], [], [])
   acc.2.2.foldl fxSet acc.1
 
+/-- several fixup tables side by side: `copy.copy` / `copy.deepcopy` / `EntityFixup(t.copy_values())`
+make a new table from an existing one; afterwards the two are edited independently. -/
+inductive FxOp
+  | set (t v : Nat)                       -- `tables[t][v] = …`, also `setdefault` of an absent variable
+  | del (t v : Nat)                       -- `del tables[t][v]`, also `pop`
+  | clear (t : Nat)                       -- `tables[t].clear()`
+  | copy (t' t : Nat) (viaInit : Bool)    -- `tables[t'] = copy.copy(tables[t])` / `EntityFixup(tables[t].copy_values())`
+
+def fxTabStep (T : Nat → Option Fix) : FxOp → Nat → Option Fix
+  | .set t v => fun i => if i = t then (T t).map (fun f => fxSet f v) else T i
+  | .del t v => fun i => if i = t then (T t).map (fun f => fxDel f v) else T i
+  | .clear t => fun i => if i = t then (T t).map (fun _ => []) else T i
+  | .copy t' t viaInit =>
+    match T t with
+    | some f => fun i => if i = t' then some (if viaInit then fxInit f else f) else T i
+    | none => T
+
+def fxTabInit (l : List (Nat × Int)) : Nat → Option Fix := fun i => if i = 0 then some (fxInit l) else none
+
 /-! ## Objects, maps, references -/
 
 inductive Kind | ent | solid | face | group | vis | node
